@@ -154,11 +154,14 @@ def run(ctx: Ctx) -> None:
                 ctx.finding("S5", f"{q}({p}) | {s.qual} | {s.text[:90]}", repo.loc(s.qual.split(".")[0], s.node), f"argument {p} of {q} can be mutated here ({s.kind}); path guards: {[str(g) for g in s.guards] or 'none'}")
             if not bad:
                 ctx.ok("S5", f"{q}({p})", repo.loc(q.split(".")[0], repo.func(q)), f"{len(sites)} mutation site(s), all under option {opt}" if sites else "no mutation site on any call path")
+    prot = E.taint([(q, ps) for q, ps in PUBLIC_READONLY])
     for q, S in E.sum.items():
         if q in reach:
             for node, name, ps in S.unknown_external:
                 if name.startswith("nested:"):
                     continue
+                if not (set(ps) & prot.get(q, set())):
+                    continue  # the external call does not receive (part of) a protected argument
                 ctx.finding("S5", f"{q} | external {name}", repo.loc(q.split(".")[0], node), f"user data {sorted(ps)} is handed to {name}, whose effect on it is not tabled")
 
     # ---- S6 (P4) -------------------------------------------------------------------------------
